@@ -608,7 +608,28 @@ func (s *Sim) genOpOf(kind string) (Op, bool) {
 				o, ok := s.genOpOf(k)
 				s.cfg.Faults = saved
 				if ok && o.Kind != "advance" && o.Kind != "complete" && o.Kind != "batch" && o.Kind != "timed" {
-					sub = append(sub, o)
+					// one shim does not contradict itself: no two requests of a batch are about the same allocation key
+					clash := false
+					keys := map[string]bool{}
+					if o.Key != "" {
+						keys[o.Key] = true
+					}
+					for _, a := range o.Asks {
+						keys[a.Key] = true
+					}
+					for _, prev := range sub {
+						if prev.Key != "" && keys[prev.Key] {
+							clash = true
+						}
+						for _, a := range prev.Asks {
+							if keys[a.Key] {
+								clash = true
+							}
+						}
+					}
+					if !clash {
+						sub = append(sub, o)
+					}
 				}
 			}
 			// directed: a queue is draining - the cleaner and a reload that touches the tree meet
